@@ -1131,8 +1131,13 @@ def _parse_source_for_lambda(
                 if last_token is not None:
                     lambda_ends[id(lda)] = (lambda_line + last_token.end[0], last_token.end[1])
 
-            if saw_new_line:
+            # A lambda that runs over several lines ends the scan - unless it started on an
+            # earlier line (we backed up): ours can follow it on the line it ends on.
+            if saw_new_line and (
+                code_first_line is None or lambda_starts_on_line >= code_first_line
+            ):
                 break
+            saw_new_line = False
 
             func_name, start_token = t_stream.find_identifier(
                 ["lambda"], can_encounter_newline=False
